@@ -350,6 +350,36 @@ def run_traces(v, workdir):
   return len(traces), accepted, events
 
 
+def run_repo_tests(v, workdir):
+  """C->S on the repository's own tests: every edit they make on a plain Buildable (recorded by the pytest
+  plugin harness/trace_plugin.py, no change to the repository) must be a step of FdlStore."""
+  import glob
+  import subprocess
+  import sys
+  tdir = os.path.join(workdir, 'repo-traces')
+  os.makedirs(tdir, exist_ok=True)
+  quick = common.tier() == 'quick'
+  files = (['fiddle/_src/config_test.py', 'fiddle/_src/signatures_test.py', 'fiddle/_src/partial_test.py',
+            'fiddle/_src/mutate_buildable_test.py', 'fiddle/_src/materialize_test.py'] if quick else [])
+  files = [f for f in files if os.path.exists(os.path.join(common.REPO, f))]
+  env = dict(os.environ, FIDDLE_VERIF_TRACE_DIR=tdir, PYTHONPATH=f'{common.VERIF}:{common.REPO}')
+  cmd = [sys.executable, '-m', 'pytest', '-q', '-p', 'no:cacheprovider', '-p', 'harness.trace_plugin',
+         '-n', '8', '--timeout=900'] + files
+  r = subprocess.run(cmd, cwd=common.REPO, env=env, capture_output=True, text=True, timeout=3000)
+  traces = []
+  for f in sorted(glob.glob(os.path.join(tdir, 'traces-*.json'))):
+    with open(f) as fh:
+      traces += json.load(fh)
+  if not traces:
+    raise common.MachineryError('the trace plugin recorded nothing from the repository tests: ' + r.stdout[-300:])
+  traces.sort(key=lambda t: json.dumps(t, sort_keys=True))
+  for n, t in enumerate(traces):
+    t['tid'] = n + 1
+  os.makedirs(os.path.join(workdir, 'repo-validate'), exist_ok=True)
+  accepted, events, _ = validate_traces(v, traces, os.path.join(workdir, 'repo-validate'))
+  return len(traces), accepted, events
+
+
 def sensitivity_selfcheck(workdir):
   """Binding demo: a corrupted trace must be rejected by Trace_C03."""
   sig = [{'k': 'PK', 'd': False}, {'k': 'VP', 'd': False}]
@@ -372,7 +402,9 @@ def main():
     sensitivity_selfcheck(wd)
     totals = run_mc(v, wd)
     ntr, acc, events = run_traces(v, wd)
+    rtr, racc, revents = run_repo_tests(v, wd)
   v.coverage.update({
+      'repo_test_traces': rtr, 'repo_test_traces_accepted': racc, 'repo_test_events_matched': revents,
       'states': totals['states'],
       'transitions': totals['transitions'],
       'traces_validated_against_impl': totals['replayed'] + ntr,
@@ -381,7 +413,8 @@ def main():
       'rule': 'S->C: one case per TLC-generated transition (distinct (signature, state, '
               'operation) by construction), replayed for each callable form; non-trivial = '
               'expected outcome ok and (state changes or a value is read). C->S: random '
-              'histories on signatures of up to 6/8 parameters validated by Trace_C03.',
+              'histories on signatures of up to 6/8 parameters validated by Trace_C03; plus the traces of every '
+              'edit the repository\'s own tests make on plain Buildables (pytest plugin), validated the same way.',
       'spec_selftest_vs_cpython_list': totals['selftest'],
       's2c_lines': totals['lines'], 's2c_replayed': totals['replayed'],
       's2c_dead_after_prefix_divergence': totals['dead'],
